@@ -14,6 +14,8 @@ for every user / object / action / domain of the case's universe:
                                                                                        (C15_users_for_permission_exact);
   T5  get_users_for_role / get_roles_for_user (and the _in_domain variants) are inverse views of the g rules (of d),
       each name once                                                                   (C15_roles_users_inverse);
+  T6  get_implicit_users_for_resource[_by_domain] = the rules on the resource (of d) with a role subject replaced by
+      each of the role's direct users, and every reported permission is granted by enforce;
   no query raises or fails to terminate on a well-formed policy.
 Every case is also run on the extracted model (oracle "Mgmt") and compared observation by observation."""
 import itertools
@@ -21,7 +23,7 @@ import signal
 
 import casbin
 
-from ..core import Check
+from ..core import Check, vm_crosscheck
 from .. import mgmt
 
 PROP = "C15"
@@ -41,6 +43,7 @@ def _alarm(signum, frame):
 
 _depth = [0]
 _limit = [2.0]      # CPU seconds (ITIMER_VIRTUAL: not affected by machine load); a healthy query needs ~1 ms
+_hangs = [0]
 
 
 def _guarded(name):
@@ -51,11 +54,13 @@ def _guarded(name):
             return base(self, *a, **kw)
         _depth[0] = 1
         old = signal.signal(signal.SIGVTALRM, _alarm)
-        signal.setitimer(signal.ITIMER_VIRTUAL, _limit[0])
+        # repeating: casbin has bare `except:` clauses that would swallow a single shot
+        signal.setitimer(signal.ITIMER_VIRTUAL, _limit[0], 0.02)
         try:
             return base(self, *a, **kw)
         except NonTermination:
-            _limit[0] = 0.5                 # the walk is known to hang now: do not spend 2 s per shrinking step
+            _hangs[0] += 1
+            _limit[0] = 0.05                # a walk is known to hang now: do not spend 2 s on every further one
             raise
         finally:
             signal.setitimer(signal.ITIMER_VIRTUAL, 0)
@@ -128,6 +133,9 @@ def query_ops(kind, rows):
         for o in uni.objs:
             for a in uni.acts:
                 ops.append((62, [d, o, a] if kind.dom else [o, a]))
+        if kind.dom:
+            ops += [(64, o, d) for o in uni.objs]
+    ops += [(63, o) for o in uni.objs]
     if not kind.dom:
         for u in subs:
             ops += [(55, u), (56, u)]
@@ -198,6 +206,30 @@ def spec_check(kind, rows, lf, ops, obs, impl):
                     want.append(u)
             if want is not None and sorted(v) != sorted(want):
                 return [(i, "get_implicit_users_for_permission is not exactly the non-role subjects that enforce allows")]
+        elif c in (63, 64):
+            o_, d = key[1], (key[2] if c == 64 else None)
+            roles = {x[1] for x in g if x[-1] == d} if c == 64 else g_roles
+            ed = edges_of(d if c == 64 else 0) if kind.dom else edges_of(0)
+            want = set()
+            for x in p:
+                if x[i_obj] != o_ or (c == 64 and x[i_dom] != d):
+                    continue
+                if x[i_sub] not in roles:
+                    want.add(tuple(x))
+                else:
+                    for a_, b in ed:
+                        if b == x[i_sub]:
+                            y = list(x)
+                            y[i_sub] = a_
+                            want.add(tuple(y))
+            if len(v) != len(set(map(tuple, v))):
+                return [(i, "get_implicit_users_for_resource reports a rule twice")]
+            if set(map(tuple, v)) != want:
+                return [(i, "get_implicit_users_for_resource is not the rules on the resource with role subjects replaced by the role's direct users")]
+            for x in v:
+                k2 = (50, tuple(x))
+                if k2 in res and not res[k2][1][1]:
+                    return [(i, "get_implicit_users_for_resource reports a permission that enforce refuses")]
         elif c in (55, 57):
             u, d = key[1], (key[2] if c == 57 else 0)
             if len(v) != len(set(v)):
@@ -306,11 +338,41 @@ def key_fn(k, r, o):
     return (k.name, repr(r)) if any(pt == 1 for pt, _ in r) else None
 
 
+def run_stratum(chk, kind, cases, label):
+    """in chunks, so that a walk that stopped terminating ends the run after the chunk that found it"""
+    VM_POOL.extend((kind, rows, ops) for rows, _, ops in cases[::7])
+    for k in range(0, len(cases), 100):
+        if _hangs[0]:
+            chk.notes.append(f"{label}: stopped after {k} of {len(cases)} cases (a query did not terminate)")
+            return False
+        mgmt.run_cases(chk, kind, cases[k:k + 100], spec_check, label=label, key_fn=key_fn, impl_kwargs=IMPL_KW)
+    return True
+
+
+VM_POOL = []
+
+
+def vm_check(chk, n):
+    """the extracted OCaml model and Coq's own vm_compute agree on a sample of the histories just run"""
+    if chk.oracle is None or not VM_POOL or _hangs[0]:
+        return
+    sample = [VM_POOL[i] for i in sorted(chk.rng.sample(range(len(VM_POOL)), min(n, len(VM_POOL))))]
+    reqs = [(1, [kind.wire(), [[pt, r] for pt, r in rows], True, [list(op) for op in ops]]) for kind, rows, ops in sample]
+    reps = chk.oracle.query(reqs)
+    ok, nchk, log = vm_crosscheck(PROP, "From PyCasbin Require Import Base MgmtWire.", "oracle_mgmt", reqs, reps, chunk=20)
+    chk.vm_checked += nchk
+    if not ok:
+        chk.disagree(dict(level="vm_compute"), None, log[-600:],
+                     where="vm_compute re-evaluation of oracle_mgmt differs from the extracted OCaml")
+
+
 def run(chk, n_random, max_g, max_p, cap, n_deep):
     rng = chk.rng
     strata = chk.extra.setdefault("strata", {})
     full_cover = True
     for kn in ("rbac", "dom"):
+        if _hangs[0]:
+            return False
         kind = mgmt.KINDS[kn]
         allrows = list(exhaustive_rows(kind, max_g, max_p))
         full = len(allrows)
@@ -318,20 +380,20 @@ def run(chk, n_random, max_g, max_p, cap, n_deep):
             allrows = rng.sample(allrows, cap)
             full_cover = False
         cases = [(rows, True, query_ops(kind, rows)) for rows in allrows]
-        mgmt.run_cases(chk, kind, cases, spec_check, label=f"enumerated-{kn}", key_fn=key_fn, impl_kwargs=IMPL_KW)
+        full_cover = run_stratum(chk, kind, cases, f"enumerated-{kn}") and full_cover
         strata[f"enumerated_{kn}"] = dict(run=len(cases), of=full, max_links=max_g, max_rules=max_p)
         cases = [(rows, True, query_ops(kind, rows)) for rows in shape_rows(kind)]
-        mgmt.run_cases(chk, kind, cases, spec_check, label=f"shapes-{kn}", key_fn=key_fn, impl_kwargs=IMPL_KW)
+        run_stratum(chk, kind, cases, f"shapes-{kn}")
         strata[f"shapes_{kn}"] = len(cases)
         cases = [(rows, True, query_ops(kind, rows)) for rows in deep_rows(kind, rng, n_deep)]
-        mgmt.run_cases(chk, kind, cases, spec_check, label=f"depth-bound-{kn}", key_fn=key_fn, impl_kwargs=IMPL_KW)
+        run_stratum(chk, kind, cases, f"depth-bound-{kn}")
         strata[f"depth_bound_{kn}"] = len(cases)
         cases = []
         for _ in range(n_random):
             gen = mgmt.Gen(rng, kind)
             rows = gen.rows(rng.randint(2, 14))
             cases.append((rows, True, query_ops(kind, rows)))
-        mgmt.run_cases(chk, kind, cases, spec_check, label=f"random-{kn}", key_fn=key_fn, impl_kwargs=IMPL_KW)
+        run_stratum(chk, kind, cases, f"random-{kn}")
         strata[f"random_{kn}"] = len(cases)
     return full_cover
 
@@ -360,8 +422,10 @@ def main():
         return mgmt.replay_case(chk, spec_check, impl_kwargs=IMPL_KW)
     if chk.tier == "thorough":
         chk.exhaustive = run(chk, 1500, nl, nr, None, 200)
+        vm_check(chk, 200)
     else:
         chk.exhaustive = run(chk, 120, 3, 2, None, 24)
+        vm_check(chk, 40)
         if chk.broken() and not chk.spec_failures:
             run(chk, 600, 4, 3, 3000, 120)
     chk.finish()
